@@ -136,3 +136,37 @@ def _(h):
     h.true('len', len(X) == 2)
     for i, M in enumerate(X.data):
         assert_unitq(h, f'el{i}', M)
+
+
+# ---- interpolation returns valid members (families shared with C11)
+from . import c11 as _c11      # noqa: E402
+
+for _far in (False, True):
+    for _sh in (False, True):
+        @claim(f'interp:slerp:far={_far}:shortest={_sh}', split=True, values=True)
+        def _(h, far=_far, sh=_sh):
+            """slerp of two unit quaternions is a unit quaternion; `far` gives q1 with the opposite sign (obtuse angle)"""
+            q0, q1, n, t = _c11.pair(h, 1e-3, 1.5)
+            s = h.real('s', 0, 1)
+            if far and not sh:
+                # the long way round passes through angles > pi/2: still a unit quaternion
+                pass
+            q = base.slerp(q0, -q1 if far else q1, s, shortest=sh)
+            assert_unitq(h, 'slerp', q, tol=1e-9)
+
+
+@claim('interp:trinterp', split=True, values=True)
+def _(h):
+    R0, h0 = _c11.z_pose(h, 'h0')
+    R1, h1 = _c11.z_pose(h, 'h1')
+    T0, T1 = hom(h, R0, h.vec('t0_', 3, -1e3, 1e3)), hom(h, R1, h.vec('t1_', 3, -1e3, 1e3))
+    s = h.real('s', 0, 1)
+    assert_SE(h, 'trinterp', base.trinterp(T0, T1, s), tol=1e-9)
+
+
+@claim('interp:trinterp2', values=True)
+def _(h):
+    a0, a1 = h.angle('a0', -3.1, 3.1), h.angle('a1', -3.1, 3.1)
+    T0, T1 = hom(h, rot2_ref(h, a0), h.vec('t0_', 2, -1e3, 1e3)), hom(h, rot2_ref(h, a1), h.vec('t1_', 2, -1e3, 1e3))
+    s = h.real('s', 0, 1)
+    assert_SE(h, 'trinterp2', base.trinterp2(T0, T1, s), tol=1e-9)
